@@ -5,7 +5,7 @@ import sys
 import contextlib
 
 
-class CaseTimeout(Exception):
+class CaseTimeout(BaseException):
     pass
 
 
